@@ -60,21 +60,40 @@ def unload(path, name):
 # ---- (a)+(b): chains -------------------------------------------------------------------------------
 
 def strat_chain(tier):
-    level = st.fixed_dictionaries({"pre_block": st.booleans(), "how": st.sampled_from(["yield", "yield", "yield_tuple", "sync"]),
+    level = st.fixed_dictionaries({"pre_block": st.booleans(), "how": st.sampled_from(["yield", "yield", "yield_tuple", "sync"]), "nosource": st.sampled_from([False, False, False, True]),
                                    "handler": st.sampled_from(["none", "none", "none", "reraise", "catch"]), "post_block": st.booleans()})
     maxd = 8 if tier == "quick" else 40
     return st.fixed_dictionaries({"levels": st.lists(level, min_size=1, max_size=maxd), "raise_at": st.integers(0, maxd), "raise_via_helper": st.booleans(),
                                   "raise_after_block": st.booleans()})
 
 
+def effective_levels(case):
+    """a level compiled from a string always awaits the next level with a plain yield"""
+    d = len(case["levels"])
+    r = min(case["raise_at"], d - 1)
+    return [dict(lv, handler="none", how="yield", pre_block=False, post_block=False) if lv.get("nosource") and i < r else lv
+            for i, lv in enumerate(case["levels"])]
+
+
 def chain_source(case):
-    levels = case["levels"]
+    levels = effective_levels(case)
     d = len(levels)
     r = min(case["raise_at"], d - 1)
-    src = ["import asynq", "from asynq import asynq as A", "from asynq.batching import DebugBatchItem", "STACKS = {}", "LINES = {}", "",
+    src = ["import asynq", "from asynq import asynq as A", "from asynq.batching import DebugBatchItem", "STACKS = {}", "LINES = {}", "NOSOURCE_FIXUPS = []", "",
            "class HExc(Exception):", "    pass", "", "def boom():", "    raise HExc('boom')", ""]
     for i, lv in enumerate(levels):
         name = "lvl_%02d_" % i
+        if lv.get("nosource") and i < r:
+            # a function compiled from a string: inspect cannot retrieve its source lines
+            nxt = "lvl_%02d_" % (i + 1)
+            body = "def %s():\n    if 0: yield\n    STACKS[%d] = asynq.debug.format_asynq_stack()\n    v = yield %s.asynq()  # CALL\n    return v\n" % (name, i, nxt)
+            src.append("_ns = {'asynq': asynq, 'STACKS': STACKS}")
+            src.append("exec(compile(%r, '<generated %s>', 'exec'), _ns)" % (body, name))
+            src.append("%s = A()(_ns[%r])" % (name, name))
+            src.append("_ns[%r] = None" % nxt)
+            src.append("NOSOURCE_FIXUPS.append((_ns, %r))" % nxt)
+            src.append("")
+            continue
         src.append("@A()")
         src.append("def %s():" % name)
         src.append("    if 0: yield  # every level is a generator function (a plain function runs inside asynq's own wrapper frame)")
@@ -100,6 +119,8 @@ def chain_source(case):
             src.append("    yield DebugBatchItem('c18p', %d)" % i)
         src.append("    return v")
         src.append("")
+    src.append("for _ns, _nm in NOSOURCE_FIXUPS:")
+    src.append("    _ns[_nm] = globals()[_nm]")
     return "\n".join(src) + "\n", r
 
 
@@ -112,7 +133,7 @@ def check_chain(case, ctx):
         lines = src.split("\n")
         raise_line = next(n + 1 for n, l in enumerate(lines) if l.endswith("# RAISE"))
         boom_line = next(n + 1 for n, l in enumerate(lines) if l.strip() == "raise HExc('boom')")
-        levels = case["levels"]
+        levels = effective_levels(case)
         catcher = max([i for i in range(r) if levels[i]["handler"] == "catch"] or [-1])
         err = None
         with sink.capture_print():
@@ -133,7 +154,7 @@ def check_chain(case, ctx):
                 frames = []
                 tb = err.__traceback__
                 while tb is not None:
-                    if tb.tb_frame.f_code.co_filename == path:
+                    if tb.tb_frame.f_code.co_filename == path or tb.tb_frame.f_code.co_filename.startswith("<generated lvl_"):
                         frames.append((tb.tb_frame.f_code.co_name, tb.tb_lineno))
                     tb = tb.tb_next
                 names = [f[0] for f in frames]
@@ -167,6 +188,7 @@ def check_chain(case, ctx):
         ctx.label("reraise-on-path", any(levels[i]["handler"] == "reraise" for i in range(r)))
         ctx.label("caught", catcher >= 0)
         ctx.label("sync-call-on-path", any(levels[i]["how"] == "sync" for i in range(r)))
+        ctx.label("level-without-source", any(levels[i].get("nosource") for i in range(r)))
         ctx.nontrivial(case, r >= 1 and catcher < 0)
     finally:
         unload(path, name)
@@ -179,7 +201,7 @@ def reduce_chain(case):
         if len(lv) > 1:
             yield dict(case, levels=lv[:i] + lv[i + 1:])
     for i in range(len(lv)):
-        for k, v in (("pre_block", False), ("post_block", False), ("handler", "none"), ("how", "yield")):
+        for k, v in (("pre_block", False), ("post_block", False), ("handler", "none"), ("how", "yield"), ("nosource", False)):
             if lv[i][k] != v:
                 yield dict(case, levels=lv[:i] + [dict(lv[i], **{k: v})] + lv[i + 1:])
     if case["raise_at"] > 0:
@@ -289,7 +311,7 @@ def reduce_filter(case):
 
 OBJECTS = ["future_pending", "future_ok", "future_err", "const", "errfut", "task_unstarted", "task_blocked", "task_done", "task_failed", "task_self_value",
            "batch_pending", "batch_flushed", "batch_cancelled", "item_pending", "item_done", "item_err", "debug_batch", "debug_item", "scheduler_idle",
-           "scheduler_running", "scoped_value", "override_ctx", "attr_override_ctx", "asyncgen_fresh", "asyncgen_mid", "asyncgen_stopped", "decorated_fn",
+           "scheduler_running", "scoped_value", "scoped_value_tuple", "scoped_value_empty_tuple", "override_ctx", "override_ctx_tuple", "attr_override_ctx", "attr_override_ctx_tuple", "asyncgen_fresh", "asyncgen_mid", "asyncgen_stopped", "decorated_fn",
            "bound_method", "pure_fn", "proxy_fn", "dedupe_fn", "nonasync_ctx", "async_timer"]
 RENDER = ["str", "repr", "debug.str", "debug.repr", "dump0", "dump3", "dump50"]
 
@@ -397,8 +419,16 @@ def make_object(kind):
         return asynq.scheduler.get_scheduler()
     if kind == "scoped_value":
         return AsyncScopedValue({"a": 1})
+    if kind == "scoped_value_tuple":
+        return AsyncScopedValue((1, "two"))
+    if kind == "scoped_value_empty_tuple":
+        return AsyncScopedValue(())
     if kind == "override_ctx":
         return AsyncScopedValue(1).override(2)
+    if kind == "override_ctx_tuple":
+        return AsyncScopedValue((1, 2)).override((3,))
+    if kind == "attr_override_ctx_tuple":
+        return async_override(env.objs[0], "attr", (4, 5, 6))
     if kind == "attr_override_ctx":
         return async_override(env.objs[0], "attr", 3)
     if kind.startswith("asyncgen"):
